@@ -1,5 +1,6 @@
 import Octo.Lemmas.JsonPipeProgress
 import Octo.Model.JsonPipeSkeleton
+import Octo.Lemmas.JoinProto
 /-!
 # C29 — protocol-level part: the JSON datasource pipeline neither deadlocks nor runs for ever
 
@@ -17,12 +18,19 @@ theorem skeleton_matches :
     Octo.Gen.JsonPipe.runSkeleton = expectedRunSkeleton ∧ Octo.Gen.JsonPipe.workerSkeleton = expectedWorkerSkeleton :=
   ⟨rfl, rfl⟩
 
+/-- the same for the goroutine / channel lines of `StreamJoin.Run` and `OuterJoin.Run` (`stream_join.go`,
+`outer_join.go`): the producers send through the `select`-with-`ctx.Done()` helper, the node cancels that context
+when it returns -/
+theorem join_skeleton_matches :
+    Octo.Gen.JsonPipe.streamJoinSkeleton = expectedJoinSkeleton ∧ Octo.Gen.JsonPipe.outerJoinSkeleton = expectedJoinSkeleton :=
+  ⟨rfl, rfl⟩
+
 /-- **Tie to the source text (2).** What the proofs need of the capacities found in the sources: there are at most
 as many tokens as `outChan` has room (this is what makes `worker_never_blocks` true), the `done` channel has room
 for the reader's single send, and the job channel has room for a single datasource's tokens. -/
 theorem capacities_ok :
     tokCap ≤ outCap ∧ 0 < tokCap ∧ 0 < jobCap ∧ tokCap ≤ jobCap ∧ 1 ≤ Octo.Gen.JsonPipe.doneCap ∧
-    1 ≤ Octo.Gen.JsonPipe.batchSize ∧ 1 ≤ Octo.Gen.JsonPipe.tailBatchSize := by decide
+    1 ≤ Octo.Gen.JsonPipe.batchSize ∧ 1 ≤ Octo.Gen.JsonPipe.tailBatchSize ∧ 0 < JoinProto.cap := by decide
 
 /-- **Token invariant.** In every reachable state, for every running datasource: every job between the reader's
 token acquisition and the consumer's token release, and every batch waiting in `outChan`, holds a token; there
@@ -197,5 +205,107 @@ drops or delivers; everything ends -/
 example : (run (State.init 1 [Pipe.init 3 2 false [] (some 1)])
     [.rTok 0, .rSub 0, .rWrite 0, .wTake 0 0, .wSend 0, .cRecv 0 0, .cTok 0, .cProc 0, .cCancel 0, .rStop 0]).map
       (fun t => ((t.pipe 0).ret, (t.pipe 0).produced, decide (t.pipeFinal 0))) = some (.stop, 1, true) := by decide
+
+/-! ## the goroutine protocol of StreamJoin / OuterJoin -/
+
+section Join
+open Octo.JoinProto
+
+/-- **The join node never deadlocks**: whatever the two sources still have to send, however full the channels are,
+as long as `Run` has not returned some goroutine (a producer or the node's receive loop) can move. -/
+theorem join_node_never_deadlocks (s : JoinProto.State) (h : s.cpc ≠ .ret) : ∃ a, (JoinProto.step s a).isSome = true :=
+  consumer_progress s h
+
+/-- **Every schedule of a join over finite inputs is finite.** -/
+theorem join_schedules_are_finite {s t : JoinProto.State} {sched : List JoinProto.Action}
+    (hr : JoinProto.run s sched = some t) : sched.length ≤ JoinProto.measure s := by
+  have := run_length hr; omega
+
+/-- **No goroutine of the join is left behind** (current code): until the node has returned and both producer
+goroutines have closed their channels, something can move — also after an early return (error, LIMIT), because
+the producers' sends then take the `ctx.Done()` branch. -/
+theorem join_goroutines_end (s : JoinProto.State) (hf : s.fixed = true) (hn : ¬ s.final) :
+    ∃ a, (JoinProto.step s a).isSome = true := by
+  by_cases hret : s.cpc = .ret
+  · by_cases hl : s.l.closed = true
+    · by_cases hr : s.r.closed = true
+      · exact absurd ⟨hret, hl, hr⟩ hn
+      · exact producer_progress_fixed s hf hret .R (by simpa [JoinProto.State.prod] using hr)
+    · exact producer_progress_fixed s hf hret .L (by simpa [JoinProto.State.prod] using hl)
+  · exact consumer_progress s hret
+
+theorem joinRun_append {s : JoinProto.State} {as bs : List JoinProto.Action} :
+    JoinProto.run s (as ++ bs) = (JoinProto.run s as).bind (fun t => JoinProto.run t bs) := by
+  induction as generalizing s with
+  | nil => simp [JoinProto.run]
+  | cons a as ih =>
+    simp only [List.cons_append, JoinProto.run]
+    cases JoinProto.step s a with
+    | none => simp
+    | some s' => simpa using ih
+
+/-- the state in which the code before the fix is stuck for ever: the node has returned after `cap` messages of the
+left source were queued, one more was sent, and the left source still has a message to send -/
+def leakState : JoinProto.State := ⟨false, ⟨1, JoinProto.cap, false, false⟩, ⟨0, 0, true, false⟩, .ret⟩
+
+/-- **The code before the `fix:` commit leaks a goroutine** (`// TODO: Fix goroutine leak.`): with a left source of
+`cap + 2` messages and a consumer that returns at its first receive, a reachable state is stuck although the left
+producer goroutine has not ended — it is blocked on `leftMessages <- msg` for ever. -/
+theorem join_unfixed_leaks :
+    JoinProto.Reachable leakState ∧ ¬ leakState.final ∧ ∀ a, JoinProto.step leakState a = none := by
+  refine ⟨⟨false, JoinProto.cap + 2, 0,
+    List.replicate JoinProto.cap (.pSend .L) ++ [.cRecv .L true, .pSend .L, .pClose .R], ?_⟩, by decide, ?_⟩
+  · rw [joinRun_append, run_sends _ JoinProto.cap (by decide) (by decide) rfl rfl]
+    decide
+  · intro a
+    cases a with
+    | pSend sd => cases sd <;> decide
+    | pAbort sd => cases sd <;> decide
+    | pClose sd => cases sd <;> decide
+    | cRecv sd stop => cases sd <;> cases stop <;> decide
+    | cSeeClosed sd => cases sd <;> decide
+
+/-- what C29 says about a join's goroutines, for the code with (`fixed = true`) or without the fix -/
+def JoinStatement (fixed : Bool) : Prop :=
+  ∀ s : JoinProto.State, JoinProto.Reachable s → s.fixed = fixed →
+    (s.cpc ≠ .ret → ∃ a, (JoinProto.step s a).isSome = true) ∧
+    (¬ s.final → ∃ a, (JoinProto.step s a).isSome = true) ∧
+    (∀ sched t, JoinProto.run s sched = some t → sched.length ≤ JoinProto.measure s)
+
+theorem join_full : JoinStatement true := fun s _ hf =>
+  ⟨join_node_never_deadlocks s, join_goroutines_end s hf, fun _ _ hr => join_schedules_are_finite hr⟩
+
+/-- the statement fails for the code before the fix … -/
+theorem join_unfixed_refuted : ¬ JoinStatement false := by
+  intro h
+  obtain ⟨hr, hnf, hstuck⟩ := join_unfixed_leaks
+  obtain ⟨a, ha⟩ := (h leakState hr rfl).2.1 hnf
+  rw [hstuck a] at ha
+  simp at ha
+
+/-- … while the node itself returned and every schedule was finite there too: the defect was a leak, not a hang of
+the query -/
+theorem join_unfixed_partial (s : JoinProto.State) :
+    (s.cpc ≠ .ret → ∃ a, (JoinProto.step s a).isSome = true) ∧
+    (∀ sched t, JoinProto.run s sched = some t → sched.length ≤ JoinProto.measure s) :=
+  ⟨join_node_never_deadlocks s, fun _ _ hr => join_schedules_are_finite hr⟩
+
+/-- non-vacuity: an early return with a long left input, then both producers give up and close -/
+example : (JoinProto.run (JoinProto.State.init true 5 1)
+    [.pSend .L, .pSend .R, .cRecv .L false, .pSend .L, .cRecv .R true, .pAbort .L, .pClose .L, .pClose .R]).map
+      (fun t => decide t.final) = some true := by decide
+
+end Join
+
+/-! ## the statement -/
+
+/-- **C29, protocol part.** The part of "query execution is free of data races and deadlocks" that is a statement
+about protocols: the JSON pipeline (reader / worker pool / consumer; token, output, job and done channels; early
+stops; cancellation) and the join's producer goroutines and receive loop neither deadlock nor run for ever nor leave
+a goroutine blocked, under every schedule, and the one shared variable of the pipeline is handed over through a
+channel. Data races proper (Go memory model) are NOT a statement about these models and are not claimed. -/
+def Statement : Prop := JsonStatement ∧ JoinStatement true
+
+theorem C29_full : Statement := ⟨json_pipeline_full, join_full⟩
 
 end Octo.C29
